@@ -5,6 +5,7 @@ use crate::reg::Reg;
 #[cfg(feature = "c06")] pub mod c06;
 #[cfg(feature = "c04")] pub mod c04;
 #[cfg(feature = "c07")] pub mod c07;
+#[cfg(feature = "c09")] pub mod c09;
 
 pub fn register(prop: &str, reg: &mut Reg) {
     match prop {
@@ -12,6 +13,7 @@ pub fn register(prop: &str, reg: &mut Reg) {
         #[cfg(feature = "c06")] "C06" => c06::register(reg),
         #[cfg(feature = "c04")] "C04" => c04::register(reg),
         #[cfg(feature = "c07")] "C07" => c07::register(reg),
+        #[cfg(feature = "c09")] "C09" => c09::register(reg),
         _ => { eprintln!("symx: property {} not available in this build", prop); std::process::exit(2); }
     }
 }
